@@ -41,7 +41,7 @@ def impl_run(case):
     try:
         while True:
             if rf.is_converged(case["tol"]):
-                return {"xs": xs, "outcome": "converged", "state": _state(rf)}
+                return {"xs": xs, "outcome": "converged", "state": _state(rf), "guess": float(rf.current_guess)}
             if not ys:
                 return {"xs": xs, "outcome": "script-exhausted", "state": None, "ab": (rf.a, rf.b)}
             x = rf.get_next_abscissa()
@@ -212,6 +212,16 @@ def property_check(ctx, case, r):
         if not (lo <= x <= hi):
             ctx.violation("abscissa queried outside the initial bracket",
                           {"case": case, "impl": r, "finding_key": "query-outside"})
+            return
+    if r["outcome"] == "converged" and r.get("guess") is not None and r["state"] is not None:
+        # whatever the ordinates were: the point reported at convergence lies in the final bracket, whose ends differ
+        # in sign (bracket invariant) and are less than the tolerance apart -- so it is within tol of a sign change
+        a, b = float(r["state"][0][0]), float(r["state"][0][1])
+        g = r["guess"]
+        if not (min(a, b) <= g <= max(a, b)):
+            ctx.violation(f"the point reported at convergence ({g!r}) lies outside the final bracket [{min(a, b)!r}, "
+                          f"{max(a, b)!r}] that holds the sign change (tolerance {case['tol']})",
+                          {"case": case, "impl": r, "finding_key": "guess-outside-final-bracket"})
             return
     if case["kind"] == "function":
         if case["loop_exc"]:
